@@ -43,7 +43,7 @@ def denominators(prop, tier, seed, a):
                 continue
             groups = denom.groups_for(w, tier, seed)
             t = {'ll': llpath, 'meta': w, 'cfg': cfg.name, 'prop': prop, 'budget': budget, 'known': kf, 'ir_hash': h, 'also': [],
-                 'handler': 'avelverif.denom.solve_task', 'groups': groups, 'tier': tier, 'soft_s': (15 if prop == 'C15' else 25) if tier == 'quick' else (200 if prop == 'C15' else 300)}
+                 'handler': 'avelverif.denom.solve_task', 'groups': groups, 'tier': tier, 'soft_s': (15 if prop == 'C15' else 25) if tier == 'quick' else (60 if prop == 'C15' else 300)}
             if w['op'] == 'div64uhi':
                 t['handler'] = 'avelverif.denom.solve_div64'
                 t['soft_s'] = 60 if tier == 'quick' else 240
